@@ -858,6 +858,52 @@ pub fn run_c06(cfg: &Cfg) {
             need_case(&mut out, &mut pair, &b[..k]);
         }
     }
+    // a frame that is complete but refused (a non-zero byte in the padding between header and body) is followed, on the
+    // same connection, by valid frames of other lengths / byte order: each is sized and decoded from ITS OWN bytes
+    {
+        use rustbus::connection::Timeout;
+        use std::io::Write;
+        for round in 0..(if cfg.thorough { 24 } else { 6 }) {
+            let (mut conn, mut server) = peer::connect_pair(false);
+            let mk = |member: &str, body: u32, le: bool, serial: u32| -> Vec<u8> {
+                let mut m = if le { rustbus::message_builder::MessageBuilder::new() } else { rustbus::message_builder::MessageBuilder::with_byteorder(rustbus::ByteOrder::BigEndian) }.signal("a.b", member.to_string(), "/o").build();
+                m.body.push_param(body).unwrap();
+                let mut f = Vec::new();
+                rustbus::wire::marshal::marshal(&m, NonZeroU32::new(serial).unwrap(), &mut f).unwrap();
+                f.extend_from_slice(m.get_buf());
+                f
+            };
+            // member name lengths chosen so that 1..7 padding bytes separate header and body
+            let bad_member = "M".repeat(1 + round % 7);
+            let mut bad = mk(&bad_member, 7, round % 2 == 0, 900 + round as u32);
+            let hdr_fields = rd_u32(&bad, 12);
+            let pad_at = 16 + hdr_fields;
+            if pad_at % 8 == 0 {
+                continue;
+            }
+            bad[pad_at] = 0x5a;
+            server.write_all(&bad).unwrap();
+            let r1 = conn.recv.get_next_message(Timeout::Duration(std::time::Duration::from_millis(300)));
+            let req = format!("c06.after_refused pad_at={} round={}", pad_at, round);
+            if r1.is_ok() {
+                out.violation(&req, "a frame with a non-zero padding byte between header and body was accepted");
+            }
+            let followers = [mk("Next", 0x01020304, round % 2 == 1, 77), mk("AnotherLongerMemberName", 9, round % 2 == 0, 78), mk("N", 3, true, 79)];
+            for (i, f) in followers.iter().enumerate() {
+                server.write_all(f).unwrap();
+                match conn.recv.get_next_message(Timeout::Duration(std::time::Duration::from_millis(300))) {
+                    Ok(m) => {
+                        let want = peer::decode_frame(f).unwrap();
+                        if m.dynheader.serial != want.dynheader.serial || m.dynheader.member != want.dynheader.member || m.get_buf() != want.get_buf() {
+                            out.violation(&req, &format!("frame {} after the refused one was decoded as serial {:?} member {:?}, it is serial {:?} member {:?}", i, m.dynheader.serial, m.dynheader.member, want.dynheader.serial, want.dynheader.member));
+                        }
+                    }
+                    Err(e) => out.violation(&req, &format!("valid frame {} after a refused one was not delivered: {:?}", i, e)),
+                }
+            }
+            out.hit("after_refused_frame");
+        }
+    }
     // single-fault corruptions of the header region of pooled messages: every byte +1 -1 -2 -3 +4 -4 ^0x80 :=0/1 and
     // truncation at every position (an understated / overstated length word by 1..4, a flipped type character, ...);
     // over the cap: a uniform sample over the WHOLE header region
